@@ -24,7 +24,9 @@
    reads the h attribute (d770553) and the condition reset (f6); <gone/> is an error
    condition (f3); only an error child in the iq's own namespace is the stanza error
    (f9), only children in the stanza's own namespace are subject/body/... (C02-3);
-   SASLAuth.Value and Handshake.Value are character data (f11).
+   SASLAuth.Value and Handshake.Value are character data (f11); Err.MarshalXML refuses
+   a Reason that is not an element name ([marshals]; before the repair it was written
+   as it stood, a/><b closing the condition and opening another element).
 
    Attributes of the tree model are un-prefixed local names (XmlLex refuses a
    prefixed name), i.e. exactly the unqualified attributes of the element: the
@@ -146,17 +148,30 @@ Definition parse_int (bits : N) (s : str) : option Z :=
           if v <? 2 ^ (bits - 1) then Some (Z.of_N v) else None
         else None
   end.
-(* encoding/xml copyValue: an empty source sets the number to zero *)
+(* strings.TrimSpace: unicode.IsSpace is the White_Space property (equal to the table the
+   translator reads from the running Go, C01_space_table) *)
+Definition space_tab : list N :=
+  [9; 10; 11; 12; 13; 32; 133; 160; 5760; 8192; 8193; 8194; 8195; 8196; 8197; 8198; 8199; 8200;
+   8201; 8202; 8232; 8233; 8239; 8287; 12288].
+Definition is_space (c : N) : bool := existsb (N.eqb c) space_tab.
+Fixpoint drop_space (s : str) : str :=
+  match s with c :: r => if is_space c then drop_space r else s | [] => [] end.
+Definition trim_space (s : str) : str := rev (drop_space (rev (drop_space s))).
+
+(* encoding/xml copyValue, numeric and bool kinds: an empty source sets the zero value,
+   anything else goes through strings.TrimSpace and then strconv *)
 Definition parse_uint_field (bits : N) (s : str) : option N :=
-  match s with [] => Some 0 | _ => parse_uint bits s end.
+  match s with [] => Some 0 | _ => parse_uint bits (trim_space s) end.
 Definition parse_int_field (bits : N) (s : str) : option Z :=
-  match s with [] => Some 0%Z | _ => parse_int bits s end.
+  match s with [] => Some 0%Z | _ => parse_int bits (trim_space s) end.
 
 (* strconv.ParseBool *)
 Definition parse_bool (s : str) : option bool :=
   if existsb (str_eqb s) [[49]; [116]; [84]; [84;82;85;69]; s_true; [84;114;117;101]] then Some true
   else if existsb (str_eqb s) [[48]; [102]; [70]; [70;65;76;83;69]; s_false; [70;97;108;115;101]] then Some false
   else None.
+Definition parse_bool_field (s : str) : option bool :=
+  match s with [] => Some false | _ => parse_bool (trim_space s) end.
 Definition btoa (b : bool) : str := if b then s_true else s_false.
 
 (* ---- the registry: (kind, namespace, local, Go type); kinds as in
@@ -498,7 +513,7 @@ Definition dec (reg : registry) (ty : vtype) (t : xtree) : option value :=
           match opt_uint s_max a,
                 (match attr_last s_resume a None with
                  | None => Some None
-                 | Some v => match parse_bool v with Some b => Some (Some b) | None => None end
+                 | Some v => match parse_bool_field v with Some b => Some (Some b) | None => None end
                  end) with
           | Some mx, Some rs => Some (VSMEnable mx rs)
           | _, _ => None
@@ -575,12 +590,26 @@ Definition wf_attrs (a : attrs) : bool :=
   all_legal (a_type a) && all_legal (a_id a) && all_legal (a_from a)
   && all_legal (a_to a) && all_legal (a_lang a).
 
-(* Reason is an element name, not text; an element named text is read back as the text *)
+(* Reason is the NAME of the condition element, not text.  Err.MarshalXML (repaired) returns
+   an error, and xml.Marshal with it, unless the Reason is empty or an element name: *)
+Definition reason_ok (e : err) : bool := isempty (e_reason e) || name_ok (e_reason e).
+
+(* xml.Marshal v returns nil (the only error source in the modelled core) *)
+Definition marshals (v : value) : bool :=
+  match v with
+  | VMessage m => reason_ok (m_error m)
+  | VPresence p => reason_ok (p_error p)
+  | VIQ i => match i_error i with Some e => reason_ok e | None => true end
+  | _ => true
+  end.
+
+(* domain of Err: the code fits an int, the texts are XML characters, and the condition is
+   not called text (an element <text/> in the stanza-error namespace is read back as the
+   text, not as the condition: no condition of that name exists) *)
 Definition wf_err (e : err) : bool :=
   ((- 2 ^ 63 <=? e_code e) && (e_code e <? 2 ^ 63))%Z
   && all_legal (e_type e) && all_legal (e_text e)
-  && (isempty (e_reason e)
-      || (name_ok (e_reason e) && negb (str_eqb (e_reason e) s_text))).
+  && negb (str_eqb (e_reason e) s_text).
 
 (* namespace-explicit generic trees; [pns] the namespace of the parent *)
 Fixpoint wf_node (pns : str) (n : node) : bool :=
@@ -682,5 +711,38 @@ Definition blank (v : value) : value :=
   | VSMResumed pid h => VSMResumed (blank_str pid) h
   | VSASLAuth mech val => VSASLAuth [] (blank_str val)
   | VHandshake val => VHandshake (blank_str val)
+  | other => other
+  end.
+
+(* ---- what the encoder makes of characters outside the XML range: every text position
+        with such characters replaced by U+FFFD (XmlText.sanitize); names, namespaces,
+        numbers and opaque extensions kept.  The bytes written for v and for
+        sanitize_value v are the same (CodecP.print_sanitize_value). ---- *)
+Definition san (s : str) : str := map sanitize s.
+Definition san_attrs (a : attrs) : attrs :=
+  mkAttrs (san (a_type a)) (san (a_id a)) (san (a_from a)) (san (a_to a)) (san (a_lang a)).
+Definition san_err (e : err) : err :=
+  mkErr (e_code e) (san (e_type e)) (e_reason e) (san (e_text e)).
+Fixpoint san_node (n : node) : node :=
+  match n with
+  | Node ns l a c ks =>
+      Node ns l (map (fun kv => (fst kv, san (snd kv))) a) (san c)
+        ((fix go (l : list node) : list node :=
+            match l with [] => [] | k :: l' => san_node k :: go l' end) ks)
+  end.
+Definition sanitize_value (v : value) : value :=
+  match v with
+  | VMessage m => VMessage (mkMessage (san_attrs (m_attrs m)) (san (m_subject m))
+                              (san (m_body m)) (san (m_thread m)) (san_err (m_error m)) (m_exts m))
+  | VPresence p => VPresence (mkPresence (san_attrs (p_attrs p)) (san (p_show p))
+                                (san (p_status p)) (p_priority p) (san_err (p_error p)) (p_exts p))
+  | VIQ i => VIQ (mkIQ (san_attrs (i_attrs i)) (i_payload i) (option_map san_err (i_error i))
+                       (option_map san_node (i_any i)))
+  | VNode n => VNode (san_node n)
+  | VSMEnabled id loc rs mx => VSMEnabled (san id) (san loc) (san rs) mx
+  | VSMResume pid h => VSMResume (san pid) h
+  | VSMResumed pid h => VSMResumed (san pid) h
+  | VSASLAuth mech val => VSASLAuth (san mech) (san val)
+  | VHandshake val => VHandshake (san val)
   | other => other
   end.
